@@ -1043,15 +1043,18 @@ impl Brc20ProgDatabase {
             .expect(DB_MUTEX_ERROR)
             .reorg(latest_valid_block_number)?;
 
-        self.db_block_number_to_hash
-            .as_mut()
-            .expect(DB_MUTEX_ERROR)
-            .reorg(latest_valid_block_number)?;
         self.db_block_number_to_block
             .as_mut()
             .expect(DB_MUTEX_ERROR)
             .reorg(latest_valid_block_number)?;
         self.db_block_number_to_raw_block
+            .as_mut()
+            .expect(DB_MUTEX_ERROR)
+            .reorg(latest_valid_block_number)?;
+
+        // Roll the block hashes back last: they define the current height, and a reorg to the current
+        // height is a no-op, so an interrupted reorg must still be visible as one until everything else is done
+        self.db_block_number_to_hash
             .as_mut()
             .expect(DB_MUTEX_ERROR)
             .reorg(latest_valid_block_number)?;
